@@ -29,20 +29,24 @@ def regenerate(repo, outdir, detailed=False):
     newmap = dict(mapping)
     os.makedirs(outdir, exist_ok=True)
     for fn in extract_core.EXTRACTORS:
+        soft = getattr(fn, "soft", False)
+        known = mapping.get(fn.__name__)
+        fb = os.path.join(FALLBACK, "%s.lean" % known) if known else None
         try:
             name, text, m = fn(repo)
             newmap[fn.__name__] = name
+            if m and soft and os.path.exists(os.path.join(FALLBACK, name + ".lean")):
+                # part of the source no longer has the shape the translator knows
+                raise KeyError("; ".join(m))
             msgs += [(name, x) for x in m]
             write_if_changed(os.path.join(outdir, name + ".lean"), text)
         except Exception as e:   # the source no longer has the shape the extractor knows
-            name = mapping.get(fn.__name__)
-            fb = os.path.join(FALLBACK, "%s.lean" % name)
-            if getattr(fn, "soft", False) and name and os.path.exists(fb):
-                write_if_changed(os.path.join(outdir, name + ".lean"), open(fb).read())
-                msgs.append((name, "SOFT %s: %r — source shape not recognised; documented constants used for the model, "
-                                   "tie = correspondence run only" % (fn.__name__, e)))
+            if soft and fb and os.path.exists(fb):
+                write_if_changed(os.path.join(outdir, known + ".lean"), open(fb).read())
+                msgs.append((known, "SOFT %s: %s — source shape not recognised; documented constants used for the model, "
+                                    "tie = correspondence run only" % (fn.__name__, str(e)[:600])))
             else:
-                msgs.append((name, "%s: %r" % (fn.__name__, e)))
+                msgs.append((known, "%s: %r" % (fn.__name__, e)))
     if newmap != mapping:
         try:
             with open(MAPFILE, "w") as f:
